@@ -359,6 +359,9 @@ func c09Profile(r *Rng, shortBuildID, extremeLines bool) *profile.Profile {
 			}
 		}
 	}
+	if r.Chance(30) {
+		c09ValuePattern(r, p)
+	}
 	odd := []string{"top", "quit", "o", ":", "inuse_space", "space", "total_x", "=", "a=b", "cum", "focus", "1", "0", "-1", "//:", " ", "samples/count", "\xff", "", "cpu"}
 	for _, st := range p.SampleType {
 		if r.Chance(20) {
@@ -494,4 +497,238 @@ func sortStrings(s []string) {
 			s[j], s[j-1] = s[j-1], s[j]
 		}
 	}
+}
+
+// ---------------------------------------------------------------------------------------------
+// value patterns per sample-type column, base profiles, and the boolean/choice option grid
+// ---------------------------------------------------------------------------------------------
+
+// c09ValuePattern rewrites the sample values of p column-wise so that every division, percentage,
+// mean and rate computed from them meets a zero (or overflowing) divisor candidate: one column all
+// zero, all columns zero but one, everything zero, cancelling +v/-v sums, MinInt64/MaxInt64, all
+// negative, all ones. Returns the name of the pattern.
+func c09ValuePattern(r *Rng, p *profile.Profile) string {
+	n := len(p.SampleType)
+	if n == 0 || len(p.Sample) == 0 {
+		return "none"
+	}
+	k := 0
+	if r.Chance(50) {
+		k = r.Intn(n)
+	}
+	pat := r.Pick([]string{"zero-col", "zero-col", "only-col", "all-zero", "cancel", "cancel-col", "extreme-col", "extreme", "negative", "ones", "zero-first-rest-big"})
+	switch pat {
+	case "zero-col":
+		for _, s := range p.Sample {
+			s.Value[k] = 0
+		}
+	case "zero-first-rest-big":
+		for _, s := range p.Sample {
+			for j := range s.Value {
+				if j == 0 {
+					s.Value[j] = 0
+				} else if s.Value[j] == 0 {
+					s.Value[j] = int64(1 + r.Intn(1000))
+				}
+			}
+		}
+	case "only-col":
+		for _, s := range p.Sample {
+			for j := range s.Value {
+				if j != k {
+					s.Value[j] = 0
+				} else if s.Value[j] == 0 {
+					s.Value[j] = int64(1 + r.Intn(1000))
+				}
+			}
+		}
+	case "all-zero":
+		for _, s := range p.Sample {
+			for j := range s.Value {
+				s.Value[j] = 0
+			}
+		}
+	case "cancel", "cancel-col":
+		var neg []*profile.Sample
+		for _, s := range p.Sample {
+			c := *s
+			c.Value = make([]int64, len(s.Value))
+			for j, v := range s.Value {
+				if pat == "cancel" || j == k {
+					c.Value[j] = -v
+				} else {
+					c.Value[j] = v
+				}
+			}
+			neg = append(neg, &c)
+		}
+		p.Sample = append(p.Sample, neg...)
+	case "extreme-col", "extreme":
+		ext := []int64{1<<63 - 1, -1 << 63, 1<<63 - 2, -1<<63 + 1, 1 << 62, -(1 << 62)}
+		for _, s := range p.Sample {
+			for j := range s.Value {
+				if pat == "extreme" || j == k {
+					s.Value[j] = ext[r.Intn(len(ext))]
+				}
+			}
+		}
+	case "negative":
+		for _, s := range p.Sample {
+			for j, v := range s.Value {
+				if v > 0 {
+					s.Value[j] = -v
+				} else if v == 0 {
+					s.Value[j] = -1
+				}
+			}
+		}
+	case "ones":
+		for _, s := range p.Sample {
+			for j := range s.Value {
+				s.Value[j] = 1
+			}
+		}
+	}
+	return pat
+}
+
+// c09BaseFor draws a base profile for p (for -base / -diff_base): the profile itself, the same
+// stacks with other value patterns, a subset, another profile with the same sample types, a profile
+// with different or reordered sample types. Returns the base and a short description.
+func c09BaseFor(r *Rng, p *profile.Profile) (*profile.Profile, string) {
+	switch r.Intn(8) {
+	case 0:
+		return p.Copy(), "same"
+	case 1, 2, 3:
+		b := p.Copy()
+		return b, "same-stacks/" + c09ValuePattern(r, b)
+	case 4:
+		b := p.Copy()
+		if len(b.Sample) > 1 {
+			b.Sample = b.Sample[:1+r.Intn(len(b.Sample)-1)]
+		}
+		if r.Chance(50) {
+			return b, "subset/" + c09ValuePattern(r, b)
+		}
+		return b, "subset"
+	case 5: // another profile, same sample types
+		b := c09Profile(r, false, false)
+		b.SampleType = nil
+		for _, st := range p.SampleType {
+			c := *st
+			b.SampleType = append(b.SampleType, &c)
+		}
+		for _, s := range b.Sample {
+			s.Value = make([]int64, len(b.SampleType))
+			for j := range s.Value {
+				s.Value[j] = r.value(&GenOpts{})
+			}
+		}
+		b.DefaultSampleType = p.DefaultSampleType
+		if r.Chance(60) {
+			return b, "other/" + c09ValuePattern(r, b)
+		}
+		return b, "other"
+	case 6: // reordered / renamed / re-united sample types
+		b := p.Copy()
+		if n := len(b.SampleType); n > 1 && r.Chance(50) {
+			i, j := r.Intn(n), r.Intn(n)
+			b.SampleType[i], b.SampleType[j] = b.SampleType[j], b.SampleType[i]
+			for _, s := range b.Sample {
+				s.Value[i], s.Value[j] = s.Value[j], s.Value[i]
+			}
+			return b, "reordered-types"
+		}
+		if len(b.SampleType) > 0 {
+			st := b.SampleType[r.Intn(len(b.SampleType))]
+			if r.Chance(50) {
+				st.Unit = r.Pick([]string{"bytes", "kb", "ms", "count", "", "hrs"})
+				return b, "other-unit"
+			}
+			st.Type = r.Pick([]string{"other", "", "samples", "cpu"})
+		}
+		return b, "renamed-type"
+	default:
+		return c09Profile(r, false, false), "unrelated"
+	}
+}
+
+// c09GridArgs draws flags from the boolean / choice / sample_index option grid (each with a fixed
+// probability, independent of the others), for the cases that run with base profiles.
+func c09GridArgs(r *Rng, sampleTypes []string) []string {
+	var a []string
+	for _, b := range []string{"mean", "normalize", "relative_percentages", "call_tree", "drop_negative", "noinlines", "showcolumns", "compact_labels"} {
+		if r.Chance(30) {
+			a = append(a, "-"+b+r.Pick([]string{"", "", "=true", "=false"}))
+		}
+	}
+	if r.Chance(15) {
+		a = append(a, "-trim=false")
+	}
+	if r.Chance(25) {
+		a = append(a, "-"+r.Pick([]string{"functions", "filefunctions", "files", "lines", "addresses"}))
+	}
+	if r.Chance(25) {
+		a = append(a, "-"+r.Pick([]string{"cum", "flat"}))
+	}
+	if r.Chance(55) {
+		if len(sampleTypes) > 0 && r.Chance(70) {
+			a = append(a, "-sample_index="+sampleTypes[r.Intn(len(sampleTypes))])
+		} else {
+			a = append(a, "-sample_index="+r.Pick([]string{"0", "1", "2", "3"}))
+		}
+	}
+	if r.Chance(15) {
+		a = append(a, "-divide_by="+r.Pick([]string{"2", "0.5", "1e9", "-1", "1e-300"}))
+	}
+	if r.Chance(15) {
+		a = append(a, "-unit="+c09Units[r.Intn(len(c09Units))])
+	}
+	return a
+}
+
+// c09GridLine: the same grid as interactive assignments.
+func c09GridLine(r *Rng, sampleTypes []string) string {
+	switch r.Intn(6) {
+	case 0, 1:
+		return r.Pick([]string{"mean", "normalize", "relative_percentages", "call_tree", "drop_negative", "noinlines", "trim"}) + r.Pick([]string{"", "=1", "=true", "=0", "=false"})
+	case 2:
+		if len(sampleTypes) > 0 {
+			return r.Pick([]string{"sample_index=", "", "total_", "mean_"}) + sampleTypes[r.Intn(len(sampleTypes))]
+		}
+		return "sample_index=0"
+	case 3:
+		return "sample_index=" + r.Pick([]string{"0", "1", "2"})
+	case 4:
+		return r.Pick([]string{"top", "tree", "text", "traces", "tags", "peek .", "dot >o.dot", "top 5 -cum"})
+	default:
+		return r.Pick([]string{"cum", "flat", "lines", "files", "functions", "addresses"}) + r.Pick([]string{"", "=1"})
+	}
+}
+
+// c09GridQuery: the same grid as URL parameters.
+func c09GridQuery(r *Rng, sampleTypes []string) string {
+	var parts []string
+	for _, b := range []string{"mean", "norm", "rel", "calltree", "dropneg", "noinlines", "showcolumns", "trim"} {
+		if r.Chance(30) {
+			parts = append(parts, b+"="+r.Pick([]string{"t", "true", "1", "f", "false"}))
+		}
+	}
+	if r.Chance(55) {
+		if len(sampleTypes) > 0 && r.Chance(70) {
+			parts = append(parts, "si="+url.QueryEscape(sampleTypes[r.Intn(len(sampleTypes))]))
+		} else {
+			parts = append(parts, "si="+r.Pick([]string{"0", "1", "2"}))
+		}
+	}
+	if r.Chance(25) {
+		parts = append(parts, "g="+r.Pick([]string{"functions", "filefunctions", "files", "lines", "addresses"}))
+	}
+	if r.Chance(20) {
+		parts = append(parts, "sort="+r.Pick([]string{"cum", "flat"}))
+	}
+	if r.Chance(20) {
+		parts = append(parts, "f=.")
+	}
+	return strings.Join(parts, "&")
 }
